@@ -153,7 +153,7 @@ class Scoreboard:
             # yield/predicate check
             val = self.sb[idx] if idx < len(self.sb) else None  # Boundary check
             if predicate(val) and idx < endIdx:
-                if start == 0:
+                if duration == 0:
                     start = idx
                 duration += 1
             else:
